@@ -92,10 +92,23 @@ def judge_metafile(raw, root, tree, pl, single):
     return problems, order
 
 
+def run_route(inp, root, out, before, tree):
+    """write the aligned metafile of the payload at root through the recorded route (c01.route_name): the command line with
+       --prog 0|1|2 / --quiet, or TorrentFile(align=True, progress=0|1|2) -- fresh, or with the public assemble() called again
+       on the same object (tree unchanged / tree changed from `before` to `tree` in between); returns the bytes"""
+    from torrentfile.cli import execute
+    pl = inp["piece_length"]
+    if inp.get("cli"):
+        trees.quiet(execute, c01.cli_argv(inp.get("progress", "0"), ["--align", "--piece-length", str(pl), "-o", out, root]))
+        return oracle.read(out)
+    re = inp.get("reassemble")
+    return trees.create("v1-align", root, out, pl, progress=inp.get("progress", 0),
+                        reassemble=(lambda: trees.rewrite_tree(root, before, tree)) if re == "changed" else bool(re))
+
+
 def e2e(ctx):
     n = 40 if ctx.tier == "quick" else 600
     core.use_repo_in_process()
-    from torrentfile.cli import execute
     with core.Scratch("vc15e_") as tmp:
         os.environ["HOME"] = tmp
         for i in range(n):
@@ -105,24 +118,30 @@ def e2e(ctx):
             root = os.path.join(tmp, f"c{i}", "payload.bin" if single else "payload")
             trees.write_tree(root, tree)
             out = os.path.join(tmp, f"c{i}", "o.torrent")
+            # routes as in C01: command line (--prog 0|1|2, --quiet) every fourth case; library with progress 0|1|2 and
+            # fresh / re-assembled on the unchanged tree / re-assembled after the payload changed
             via_cli = (i % 4 == 3)
+            progress = c01.CLI_PROGRESS[(i // 4) % len(c01.CLI_PROGRESS)] if via_cli else (i // 4) % 3
+            reassemble = None if via_cli else c01.REASSEMBLE[i % 4]
+            before, how = tree, None
+            if reassemble == "changed":
+                tree, how = trees.mutate_tree(ctx.rng, before, pl)
+            inp = {"tree": trees.tree_summary(tree), "piece_length": pl, "cli": via_cli, "progress": progress,
+                   "reassemble": reassemble}
+            if how:
+                inp.update(tree_at_construction=trees.tree_summary(before), change=how)
             try:
-                if via_cli:
-                    trees.quiet(execute, ["create", "--align", "--piece-length", str(pl), "-o", out, "--prog", "0", root])
-                    raw = oracle.read(out)
-                else:
-                    raw = trees.create("v1-align", root, out, pl)
-            except Exception as e:  # noqa
-                ctx.fail("create-raised", {"tree": trees.tree_summary(tree), "piece_length": pl, "cli": via_cli},
-                         "a metafile", f"{type(e).__name__}: {e}")
+                raw = run_route(inp, root, out, before, tree)
+            except (Exception, SystemExit) as e:  # noqa
+                ctx.fail("create-raised", inp, "a metafile", f"{type(e).__name__}: {e}")
                 continue
             problems, order = judge_metafile(raw, root, tree, pl, single)
             if problems:
-                ctx.fail("aligned-metafile", {"tree": trees.tree_summary(tree), "piece_length": pl, "cli": via_cli},
-                         "C15", problems[:6])
+                ctx.fail("aligned-metafile", inp, "C15", problems[:6])
             cl |= trees.classify_v1(tree, pl, order if order and set(order) == set(tree) else None)
             ctx.case(key=("e2e", i, tuple(sorted(trees.tree_summary(tree).items())), pl),
-                     classes=["align " + c for c in sorted(cl)], nontrivial=bool(cl),
+                     classes=["align " + c for c in sorted(cl)] + [f"route: {'cli' if via_cli else 'library'} progress {progress}"]
+                     + ([f"route: assemble() again, tree {reassemble}"] if reassemble else []), nontrivial=bool(cl),
                      sample={"tree": trees.tree_summary(tree), "pl": pl} if i == 2 else None)
 
 
@@ -178,21 +197,23 @@ def tree_from_summary(summary):
 
 def _replay_e2e(inp, tmp):
     core.use_repo_in_process()
-    from torrentfile.cli import execute
-    tree, pl, via_cli = tree_from_summary(inp["tree"]), inp["piece_length"], bool(inp.get("cli"))
+    tree, pl = tree_from_summary(inp["tree"]), inp["piece_length"]
+    before = tree
+    if inp.get("reassemble") == "changed":
+        # the tree the creator was constructed on: files that kept their size keep their bytes
+        before = tree_from_summary(inp["tree_at_construction"])
+        by_name = {(k, len(v)): v for k, v in tree.items()}
+        before = {k: by_name.get((k, len(v)), v) for k, v in before.items()}
     single = list(tree) == [()]
     root = os.path.join(tmp, "c", "payload.bin" if single else "payload")
-    trees.write_tree(root, tree)
+    trees.write_tree(root, before)
     out = os.path.join(tmp, "c", "o.torrent")
     print(f"[C15 replay] tree {json.dumps(inp['tree'], ensure_ascii=False)}, piece length {pl}, "
-          + ("`torrentfile create --align`" if via_cli else "TorrentFile(align=True)"))
+          + c01.route_name(dict(inp, cli=bool(inp.get("cli"))), "TorrentFile(align=True, ").replace(" create ", " create --align ")
+          + (f"; tree at construction {json.dumps(inp['tree_at_construction'], ensure_ascii=False)}" if before is not tree else ""))
     try:
-        if via_cli:
-            trees.quiet(execute, ["create", "--align", "--piece-length", str(pl), "-o", out, "--prog", "0", root])
-            raw = oracle.read(out)
-        else:
-            raw = trees.create("v1-align", root, out, pl)
-    except Exception as e:  # noqa
+        raw = run_route(inp, root, out, before, tree)
+    except (Exception, SystemExit) as e:  # noqa
         print(f"[C15 replay] VIOLATION create-raised: {type(e).__name__}: {e}")
         return 1
     problems, _ = judge_metafile(raw, root, tree, pl, single)
